@@ -452,6 +452,15 @@ def run_axi(col):
         return not bad, "%s: %s" % (w, "; ".join(bad))
     col.check("C02.O5", "axisymmetric scalar linear form (mode 10)", "value form of a dual field weighted with 2 pi R dV", chk_mode10)
 
+    def chk_mode_vv():
+        f = fun_array("m", (2, 2, nq, nc))
+        form = it.call(cls, [], dict(fun=f, v=v, dV=ra.dV, u=v, grad_v=False, grad_u=False))
+        res = it.call_method(form, "assemble", [])
+        want = ref_bilinear(ra, ra, 2, 2, lambda i, J, k, L, q, c: f[i, k, q, c], False, False, weight=wgt)
+        bad = diff_dense(res, want)
+        return not bad, "%s: %s" % (w, "; ".join(bad))
+    col.check("C02.O5", "axisymmetric value-value form on the displacement field", "value-value form (mass-type) of two axisymmetric fields: no hoop terms, weight 2 pi R dV", chk_mode_vv)
+
     def chk_mode40():
         f = fun_array("k", (1, 1, nq, nc))
         form = it.call(cls, [], dict(fun=f, v=p, dV=ra.dV, u=p, grad_v=False, grad_u=False))
